@@ -25,6 +25,9 @@ CLAIMED = {
  'C16': dict(
    text="Proof for all bit patterns: every converting constructor and converting assignment (member templates instantiated through the real overload resolution) of every quantity class and of the four vector/tensor classes stores, in each slot, exactly the IEEE cast of the same slot of the source and writes nothing else (CBMC contract with frame per member, float<-double and double<-float); (float)(double)x == x for all float x. A converting member that has no body because it does not compile is decided by the real compiler and reported as a violation.",
    ref="DESIGN.md 5 C16", note="Pairs with long double are not run bit-precisely (CBMC long double is binary128). Direction/PlanarDirection converting constructors re-normalise and are left to C10."),
+ 'C17': dict(
+   text="Static facts decided by both compilers for all 92 quantity classes x float/double/long double (generated static_asserts: sizeof == N*sizeof(T) with N fixed by the shape of the base class, alignof, trivially copyable, standard layout); proof for all inputs (CBMC contracts with frames): Zero() has every component +0 exactly; Value()/MutableValue()/SetValue() of each base class and Set_*/Mutable_* of the tensor classes read, alias and write exactly the stored slot and nothing else.",
+   ref="DESIGN.md 5 C17", note="Layout facts are compiler-decided static facts, not CBMC proofs. Accessor contracts are proved on one instantiation per base class template (the members are inherited unchanged)."),
 }
 REASONS = {'C19': "static-initialisation order is a property of the compilers' start-up schedule, not of any function's pre/postcondition; CBMC has no model of C++ dynamic initialisation and contracts cannot express it (DESIGN.md 6)"}
 checks = []
